@@ -229,6 +229,31 @@ def unusual_containers(ctx):
                         ctx.violation("value:%s:%s:%s" % (cls, label, kname), dict(case, got=repr(got)[:160], want=repr(want)[:160]), replay=case)
 
 
+def zero_d_containers(ctx):
+    """an Array whose container is a 0-d ndarray (one number boxed by numpy): the ten forms with plain numbers answer with an
+    Array of x's quantity (reciprocal for k/x, k//x) holding the one computed number"""
+    import numpy as np
+    from barril.units import Array
+
+    for u, base in (("m", 7.0), ("degC", -40.0), ("s", 0.5)):
+        x = Array(np.array(base), u)
+        q = x.GetQuantity()
+        for kname, k in (("float", 2.5), ("int", 3), ("np.float64", np.float64(0.5)), ("ndarray 0-d", np.array(2.0)), ("bool", True)):
+            for label, fn, keeps in FORMS:
+                ctx.ev()
+                ctx.nt(("0-d container", u, kname, label))
+                case = {"class": "Array", "container": "0-d ndarray", "unit": u, "k_kind": kname, "form": label}
+                try:
+                    r = fn(x, k)
+                    want = float(VALUE_OPS[label](base, k))
+                    got = float(np.asarray(r.GetValues()).reshape(-1)[0]) if isinstance(r, Array) else None
+                except Exception as e:
+                    ctx.violation("raised:Array:%s:%s" % (label, kname), dict(case, error="%s: %s" % (type(e).__name__, str(e)[:160])), replay=case)
+                    continue
+                if not isinstance(r, Array) or (keeps and r.GetQuantity() != q) or got != want:
+                    ctx.violation("value:Array:%s:%s" % (label, kname), dict(case, got=got, want=want, result=repr(r)[:120]), replay=case)
+
+
 def exponent_families(ctx, r, n_families):
     """One process, quantities that differ *only in one exponent* (u/v, u/v2, u/v3, 1/v, 1/v2, u2/v ...), every
     number form applied to each in turn and again in reverse order: whatever a previous operand left behind
@@ -379,6 +404,7 @@ def run(ctx):
         if ctx.shard == 0:
             rows_of_values(ctx)
             unusual_containers(ctx)
+        zero_d_containers(ctx)
         exponent_families(ctx, ctx.rng("families"), 12 if ctx.tier == "quick" else 150)
     ctx.inconclusive_if(ctx.counters.get("operands that could not be built", 0) > n_rounds, "barril refused to build %d valid operands" % ctx.counters.get("operands that could not be built", 0))
     ctx.inconclusive_if(probe.COUNTS["Array.__rmul__"] == 0, "Array operators never reached")
